@@ -315,6 +315,7 @@ def check(case, rec):
     with tempfile.TemporaryDirectory(prefix="vf-c02-", dir=TMP) as d:
         r = read(text, case, d)
     got = observe.snapshot(r)
+    observe.check_lookups(r, got, "loaded table")
     if got["obs"] != src["obs"] or got["samp"] != src["samp"]:
         bad("readback-ids", "%r/%r != %r/%r" % (got["obs"], got["samp"],
                                                 src["obs"], src["samp"]))
